@@ -630,7 +630,7 @@ func runC05(r *core.Run) {
 		subsOf = append(subsOf, idx)
 	}
 	// each batch in its own fresh process: zone offsets are then really unseen, and a race report names its batch
-	obs, err := core.RunOps(ops, core.WorkerOpts{Fresh: true, Shards: 4, Env: []string{"GORACE=halt_on_error=1 exitcode=66"}, Stall: 120 * time.Second})
+	obs, err := core.RunOps(ops, core.WorkerOpts{Fresh: true, Shards: 4, Env: []string{"GORACE=halt_on_error=1 exitcode=66"}, Stall: 20 * time.Second})
 	if err != nil {
 		r.Machinery("worker (concurrent batches): %v", err)
 		return
